@@ -54,7 +54,7 @@ def files():
 
 def _layout(data):
     fields, zones, pool = simio.scan_zones(data)
-    lay = {"fields": fields, "zones": zones, "n": len(data)}
+    lay = {"fields": fields, "zones": zones, "n": len(data), "pool": pool, "pool_index": {p: i for i, p in reversed(list(enumerate(pool)))}}
     sp = [f for f in fields if f["id"] == 0]
     lay["pool_field"] = sp[0] if sp else None
     if sp:
@@ -196,12 +196,80 @@ def _gen_idmap(rng, fi, data, lay):
     return None
 
 
+def _enc_varint(n):
+    out = []
+    while True:
+        b = n & 0x7F
+        n >>= 7
+        if n:
+            out.append(b | 0x80)
+        else:
+            out.append(b)
+            return out
+
+
+def _gen_utc_id(rng, fi, data, lay):
+    """Ids of the form 'UTC', 'UTC+hh[:mm]' are documented as fixed-offset ids that the provider serves itself; damage that
+    makes a listed id look like one (or redirects an id reference to one of the 'UTC..' strings already in the pool) sends
+    lookups down that special path. Two sub-kinds, each at most 4 substituted bytes."""
+    spans = lay["pool_spans"]
+    pool = lay["pool"]
+    subs = []
+    if rng.random() < 0.5:
+        # (a) make the string of an id start with 'UTC'
+        cands = [z for z in lay["zones"]] + [e["key"] for e in lay["idmap"] if e["key"]]
+        fixed = [z for z, f in lay["zones"].items() if data[f.get("body_start", f["data_start"])] == 1]
+        name = rng.choice(fixed) if fixed and rng.random() < 0.5 else rng.choice(cands)
+        if name not in lay["pool_index"] or len(name) < 4:
+            return None
+        s0, s1 = spans[lay["pool_index"][name]]
+        body = s1 - len(name.encode())
+        for i, ch in enumerate(b"UTC"):
+            if data[body + i] != ch:
+                subs.append(["sub", body + i, ch])
+        if len(subs) < 4 and rng.random() < 0.5:
+            ch = rng.choice(b"+-1x:0")
+            if data[body + 3] != ch:
+                subs.append(["sub", body + 3, ch])
+        return (subs, ["utc-id-prefix"] * len(subs)) if subs else None
+    # (b) redirect an id reference to a 'UTC..' pool string, optionally after changing one of its characters
+    utc = [i for i, p in enumerate(pool) if p.startswith("UTC")]
+    if not utc:
+        return None
+    idx = rng.choice(utc)
+    enc = _enc_varint(idx)
+    if len(pool[idx]) > 3 and rng.random() < 0.7:
+        s0, s1 = spans[idx]
+        body = s1 - len(pool[idx].encode())
+        j = rng.randrange(3, len(pool[idx]))
+        ch = rng.choice(b"0123456789+-:")
+        if data[body + j] != ch:
+            subs.append(["sub", body + j, ch])
+    sites = [(e["k0"], e["k1"]) for e in lay["idmap"]] + [(e["v0"], e["v1"]) for e in lay["idmap"]]
+    sites += [(f["data_start"], f["body_start"]) for f in lay["zone_fields"] if "body_start" in f]
+    sites = [x for x in sites if x[1] - x[0] == len(enc)]
+    if not sites:
+        return None
+    a0, a1 = rng.choice(sites)
+    for i, b in enumerate(enc):
+        if data[a0 + i] != b:
+            subs.append(["sub", a0 + i, b])
+    return (subs, ["utc-id-reference"] * len(subs)) if 1 <= len(subs) <= 4 else None
+
+
 def gen_corruption(seed):
     rng = random.Random(seed)
     fs = files()
     fi = 0 if rng.random() < 0.6 else 1
     data, lay = fs[fi], _LAYOUT[fi]
     c0 = rng.random()
+    if 0.17 <= c0 < 0.22:
+        r = _gen_utc_id(rng, fi, data, lay)
+        if r is not None:
+            return {
+                "prop": PROP, "seed": seed, "mode": "corrupt", "file": fi, "plan": r[0], "regions": r[1],
+                "all_ids": False, "extra_ids": rng.randrange(0, 3), "ids_seed": rng.randrange(1 << 30), "tracemalloc": False,
+            }  # fmt: skip
     if 0.10 <= c0 < 0.17:
         r = _gen_idmap(rng, fi, data, lay)
         if r is not None:
